@@ -16,6 +16,11 @@
 //!                                   replier sends the late reply to the first just before the reply to the second (n rounds)
 //!   rqstall <n> <kib>               a replier that registers and then never reads; a requestor (400 ms timeout) issues n
 //!                                   requests of <kib> KiB one after the other: each must fail with a timeout in time
+//!   rqdead <n> <victim>            n requestor streams, each on a connection of its own, have one request in flight (all with
+//!                                   the same req_id: every stream counts from 0); the connection of requestor <victim> is
+//!                                   cut; the replier answers the victim's request first (the router finds the dead sink and
+//!                                   evicts it), then the others, then one follow-up call each: only the server's routing
+//!                                   id keeps the survivors' replies apart
 //! `<order>` (written by the harness) is the arrival order as `stream.clone` tokens.
 //! Implementation line: per arrival the outcome of that call (`ok`, `timeout`, `wrong:<payload>`, `err:<e>`),
 //! then `| ` + the outcomes of the follow-up calls per stream.
@@ -265,6 +270,71 @@ async fn run_stall(addr: SocketAddr, certs: &Certs, n: usize, kib: usize) -> any
     Ok(outs.join(","))
 }
 
+async fn run_dead(addr: SocketAddr, certs: &Certs, n: usize, victim: usize) -> anyhow::Result<String> {
+    let topic = format!("/verif/rpc{}", TOPIC.fetch_add(1, Ordering::SeqCst));
+    let conn = raw_connect(addr, &certs.client("ca.der"), Some((&certs.client("localhost.der"), &certs.client("localhost.key.der")))).await?;
+    let mut rs = raw_stream(&conn).await?;
+    rs.send(Frame::RegisterReplier(ReplierPayload { topic: TopicName::try_from(topic.as_str())? })).await?;
+    match rs.next().await { Some(Ok(Frame::Ok)) => {}, other => anyhow::bail!("replier registration answered {other:?}") }
+    tokio::time::sleep(Duration::from_millis(30)).await;
+    // requestors register one after the other (routing ids in this order), each on its own connection
+    let mut clients = vec![];
+    let mut rqs = vec![];
+    for _ in 0..n {
+        let c = client(addr, certs, BackoffStrategy::constant().with_max_attempts(0)).await?;
+        let r = c.requestor(&topic).with_request_encoder(StringCodec).with_reply_decoder(StringCodec).with_request_timeout(2500u64)?.open().await?;
+        tokio::time::sleep(Duration::from_millis(40)).await;
+        clients.push(c);
+        rqs.push(r);
+    }
+    let mut calls = vec![];
+    for (i, r) in rqs.iter().enumerate() {
+        let mut r = r.clone();
+        let own = format!("q{i}");
+        calls.push(tokio::spawn(async move { let res = r.request(own.clone()).await; (own, res) }));
+    }
+    let mut reqs: Vec<MessagePayload> = vec![];
+    while reqs.len() < n {
+        match tokio::time::timeout(Duration::from_secs(5), rs.next()).await {
+            Ok(Some(Ok(Frame::Message(p)))) => reqs.push(p),
+            other => anyhow::bail!("the replier saw {} of {n} requests, then {other:?}", reqs.len()),
+        }
+    }
+    clients[victim].verif_close_connection().await;
+    tokio::time::sleep(Duration::from_millis(200)).await;
+    let reply = |p: &MessagePayload| Frame::Message(MessagePayload { headers: p.headers.clone(), message: format!("r:{}", String::from_utf8_lossy(&p.message)).into() });
+    let vname = format!("q{victim}");
+    // the victim's reply first, twice with a pause: the router meets the dead sink, evicts it, and carries on
+    for _ in 0..2 {
+        for p in reqs.iter().filter(|p| p.message.as_ref() == vname.as_bytes()) { let _ = rs.send(reply(p)).await; }
+        tokio::time::sleep(Duration::from_millis(150)).await;
+    }
+    for p in reqs.iter().filter(|p| p.message.as_ref() != vname.as_bytes()) { let _ = rs.send(reply(p)).await; }
+    let mut outs = vec![String::new(); n];
+    for (i, c) in calls.into_iter().enumerate() {
+        let (own, res) = c.await?;
+        outs[i] = if i == victim { "gone".to_string() } else { outcome(&res, &own) };
+    }
+    // follow-up calls of the survivors, answered normally
+    let answer = tokio::spawn(async move {
+        loop {
+            match tokio::time::timeout(Duration::from_secs(4), rs.next()).await {
+                Ok(Some(Ok(Frame::Message(p)))) => { let f = Frame::Message(MessagePayload { headers: p.headers.clone(), message: format!("r:{}", String::from_utf8_lossy(&p.message)).into() }); let _ = rs.send(f).await; }
+                _ => break,
+            }
+        }
+    });
+    let mut follow = vec![];
+    for (i, r) in rqs.iter_mut().enumerate() {
+        if i == victim { continue; }
+        let own = format!("z{i}");
+        let res = r.request(own.clone()).await;
+        follow.push(outcome(&res, &own));
+    }
+    answer.abort();
+    Ok(format!("{} | {}", outs.join(","), follow.join(",")))
+}
+
 async fn run_reuse(addr: SocketAddr, certs: &Certs, rounds: usize) -> anyhow::Result<String> {
     let mut outs = vec![];
     for _ in 0..rounds {
@@ -313,6 +383,8 @@ pub fn run(cfg: &Cfg) {
         cases.push("rqreuse 2".into());
         cases.push("rqlate 2".into());
         cases.push("rqstagger 3 2".into());
+        cases.push("rqdead 3 0".into());
+        cases.push("rqdead 4 1".into());
         cases.push("rqstall 3 1".into());
         cases.push("rqstall 8 900".into());
         if cfg.tier == Tier::Thorough { cases.push("rqcut 6 3".into()); cases.push("rqreuse 6".into()); }
@@ -321,26 +393,30 @@ pub fn run(cfg: &Cfg) {
     }
     for c in &cases {
         let t: Vec<&str> = c.split(' ').collect();
-        if t[0] == "rqcut" || t[0] == "rqreuse" || t[0] == "rqstall" || t[0] == "rqlate" || t[0] == "rqstagger" {
+        if t[0] == "rqdead" || t[0] == "rqcut" || t[0] == "rqreuse" || t[0] == "rqstall" || t[0] == "rqlate" || t[0] == "rqstagger" {
             let res = rt.block_on(async {
                 tokio::time::timeout(Duration::from_secs(90), async {
-                    if t[0] == "rqcut" { run_cut(addr, &certs, t[1].parse()?, t[2].parse()?).await }
+                    if t[0] == "rqdead" { run_dead(addr, &certs, t[1].parse()?, t[2].parse()?).await }
+                    else if t[0] == "rqcut" { run_cut(addr, &certs, t[1].parse()?, t[2].parse()?).await }
                     else if t[0] == "rqstall" { run_stall(addr, &certs, t[1].parse()?, t[2].parse()?).await }
                     else if t[0] == "rqlate" { run_late(addr, &certs, t[1].parse()?).await }
                     else if t[0] == "rqstagger" { run_stagger(addr, &certs, t[1].parse()?, t[2].parse()?).await }
                     else { run_reuse(addr, &certs, t[1].parse()?).await }
                 }).await
             });
+            // scenarios with outages speak for C12 as well (requests issued after recovery are answered)
+            let tag = if t[0] == "rqcut" || t[0] == "rqstagger" { "C04/C12" } else { "C04" };
             let (imp, mon) = match res {
-                Err(_) => ("TIMEOUT".to_string(), Err("C04: the exchange did not complete within 90 s".to_string())),
-                Ok(Err(e)) => (format!("ERROR {}", format!("{e:?}").replace('\n', " ").chars().take(200).collect::<String>()), Err(format!("C04: {e}"))),
+                Err(_) => ("TIMEOUT".to_string(), Err(format!("{tag}: the exchange did not complete within 90 s"))),
+                Ok(Err(e)) => (format!("ERROR {}", format!("{e:?}").replace('\n', " ").chars().take(200).collect::<String>()), Err(format!("{tag}: {e}"))),
                 Ok(Ok(line)) => {
                     let mut m = Ok(());
-                    for (j, o) in line.split(',').enumerate() {
-                        if o.starts_with("wrong") { m = Err(format!("C04: request() returned another request's reply ({o}) [{line}]")); break; }
-                        if o == "hang" { m = Err(format!("C04: a request whose reply cannot arrive did not fail with a timeout error: request() never returned [{line}]")); break; }
+                    for (j, o) in line.replace(" | ", ",").split(',').enumerate() {
+                        if o == "gone" { continue; }
+                        if o.starts_with("wrong") { m = Err(format!("{tag}: request() returned another request's reply ({o}) [{line}]")); break; }
+                        if o == "hang" { m = Err(format!("{tag}: a request whose reply cannot arrive did not fail with a timeout error: request() never returned [{line}]")); break; }
                         let want = if ((t[0] == "rqreuse" || t[0] == "rqlate") && j % 3 == 0) || t[0] == "rqstall" { "timeout" } else { "ok" };
-                        if o != want { m = Err(format!("C04: call {j} ended with {o}, expected {want} [{line}]")); break; }
+                        if o != want { m = Err(format!("{tag}: call {j} ended with {o}, expected {want} [{line}]")); break; }
                     }
                     (line, m)
                 }
